@@ -80,6 +80,34 @@ static inline int pop_all(int locked, int j0) {
   rt_gset(HG_R(j0 + k, 0), c); rt_gset(HG_R(j0 + k, 2), (uint64_t)(H_NONE + 3)); rt_gset(HG_R(j0 + k, 1), r);
   return k;
 }
+#if KIND == 0
+/* pop_all + NON-BLOCKING iteration (cds_wfs_first / cds_wfs_next_nonblocking): a WOULDBLOCK answer is retried (busy-wait hint), it never ends
+ * the walk: every node of the popped list is still visited exactly once, in LIFO order */
+static inline int pop_all_nb(int j0) {
+  uint32_t c = h_rem_call(); int k = 0; int prev = -1; int wb = 0;
+  struct cds_wfs_head *h = __cds_wfs_pop_all(&S);
+  uint32_t r = rt_stamp();
+  struct cds_wfs_node *n = cds_wfs_first(h);
+  while (n != 0) {
+    int v = idx(n);
+    rt_assert(v >= 0 && k < H_NN, "pop_all list is a finite list of pushed nodes");
+    rt_gset(HG_R(j0 + k, 0), c); rt_gset(HG_R(j0 + k, 2), (uint64_t)(v + 3)); rt_gset(HG_R(j0 + k, 1), r);
+    rt_bset(HB_VCNT, v, rt_bget(HB_VCNT, v) + 1); rt_bset(HB_VCALL, v, c); rt_bset(HB_VRET, v, r);
+    if (prev >= 0) rt_assert(!(h_idone(prev) && h_iret(prev) < h_icall(v)), "pop_all list is in LIFO order");
+    prev = v; k++;
+    struct cds_wfs_node *nx = cds_wfs_next_nonblocking(n);
+    while (nx == CDS_WFS_WOULDBLOCK) {
+      /* legal only while the push of this node is between its head exchange and its next-pointer store */
+      rt_assert(!h_idone(v), "next_nonblocking reports WOULDBLOCK only while the push of the node it stands on is in flight");
+      wb = 1; caa_cpu_relax(); nx = cds_wfs_next_nonblocking(n);
+    }
+    n = nx;
+  }
+  rt_gset(HG_USER + 20, wb);
+  rt_gset(HG_R(j0 + k, 0), c); rt_gset(HG_R(j0 + k, 2), (uint64_t)(H_NONE + 3)); rt_gset(HG_R(j0 + k, 1), r);
+  return k;
+}
+#endif
 static inline void drain(int j0) {
   for (int k = 0; k < H_NN + 1; k++) { int v = pop(0, j0 + k); if (v == H_NONE) return; }
   rt_assert(0, "stack drains within the number of nodes ever pushed");
@@ -225,6 +253,21 @@ void epi7(void) {
   }
   rt_assert(!bad, "stack drains"); h_check_basic(); h_check_conservation();
 }
+#endif
+#if SCEN == 8      /* wfstack: pop_all + non-blocking iteration racing incomplete pushes */
+void c1(void) { int k = pop_all_nb(0); rt_cover(k == 3, "non-blocking walk visited three nodes"); }
+void epilogue(void) { rt_cover(rt_gget(HG_USER + 20) == 1, "non-blocking iteration reported WOULDBLOCK"); drain(5); all_checks(); }
+#endif
+#if SCEN == 9      /* progress: pop_all, then first / next_nonblocking up to the end of the list or the first WOULDBLOCK */
+void c1(void) {
+  struct cds_wfs_head *h = __cds_wfs_pop_all(&S);
+  struct cds_wfs_node *n = cds_wfs_first(h); int k = 0;
+  if (n) { n = cds_wfs_next_nonblocking(n); k++; }
+  if (n && n != CDS_WFS_WOULDBLOCK) { n = cds_wfs_next_nonblocking(n); k++; }
+  if (n && n != CDS_WFS_WOULDBLOCK) { n = cds_wfs_next_nonblocking(n); k++; }
+  rt_gset(HG_USER, k + 1);
+}
+void epilogue(void) { }
 #endif
 #if SCEN == 6      /* progress: pop_all alone (no iteration) */
 void c1(void) {
